@@ -591,6 +591,15 @@ type sym struct {
 	t *term
 }
 
+// symBytes is a non-nil []byte whose content is opaque and whose length is
+// a (possibly symbolic) int.  Supported: len, cap, comparison with nil,
+// passing and storing by reference.  Indexing, slicing, copying or converting
+// it ends the path as UNSUPPORTED.
+type symBytes struct {
+	n  value // int or sym of kind Int
+	id int64
+}
+
 func kindWidth(k types.BasicKind) int {
 	switch k {
 	case types.Bool, types.UntypedBool:
